@@ -10,7 +10,7 @@ import ombott
 import ombott.common_helpers as ch
 from ombott.request_pkg import Request
 from ombott.request_pkg.helpers import CookieDict
-from ombott.response import Response
+from ombott.response import Response, HTTPResponse
 
 PROPERTY = "C15"
 TECHNIQUE = ("bounded symbolic execution of set_cookie/headerlist/cookies/get_cookie/cookie_encode/cookie_decode (CrossHair+z3): "
@@ -275,7 +275,7 @@ SHAPES = {
 SIGNED_NAMES = ["sid", "a", "S-1.x"]
 
 
-def make_signed(shape, options, smax):
+def make_signed(shape, options, smax, via="direct"):
     def q(sw: str, sr: str, s: str, i: int, ni: int):
         assume(1 <= len(sw) <= smax and 1 <= len(sr) <= smax)
         for c in sw + sr:
@@ -287,6 +287,8 @@ def make_signed(shape, options, smax):
         rs = Response()
         rs.set_cookie(name, value, secret=sw, **options)
         mac.signing = False
+        if via == "copy":
+            rs = rs.copy(cls=HTTPResponse)
         rq = Request({"HTTP_COOKIE": browser(rs.headerlist)})
         got = rq.get_cookie(name, DEFAULT, secret=sr)
         if sw == sr:
@@ -378,7 +380,7 @@ def make_real_tamper(shape, level):
 
 
 # ---------------------------------------------------------------- plain round trip
-def plain_roundtrip(cookies, options=None):
+def plain_roundtrip(cookies, options=None, via="direct"):
     """cookies: [(name, value)] set on one response and read back from the next request; None or the failure text.
     set_cookie may refuse (CookieError) exactly the attribute names http.cookies reserves."""
     S.uninstall()
@@ -391,6 +393,8 @@ def plain_roundtrip(cookies, options=None):
                 return "set_cookie(%r, %r) refused: %s" % (name, value, e)
             cover("name-refused")
             return None
+    if via == "copy":                # what redirect() does with the response the handler has been writing to
+        rs = rs.copy(cls=HTTPResponse)
     header = browser(rs.headerlist)
     rq = Request({"HTTP_COOKIE": header})
     for name, value in cookies:
@@ -419,11 +423,11 @@ CONTEXTS = {"mid": ("ab", "cd"), "spaces": (" ", " "), "quotes": ('"', '"'), "es
             "separators": ("x;", ",y"), "equals": ("=", "=="), "bang": ("!", "?x"), "quoted": ('"a', ""), "tail": ("a", "\\")}
 
 
-def make_plain_ctx(ctx, options):
+def make_plain_ctx(ctx, options, via="direct"):
     pre, post = CONTEXTS[ctx]
 
     def q(o: int):
-        return plain_roundtrip([("c", pre + latin1_char(o) + post)], options)
+        return plain_roundtrip([("c", pre + latin1_char(o) + post)], options, via)
     return q
 
 
@@ -652,6 +656,15 @@ def queries(tier):
             "set_cookie(name, <%s>, secret=sw) -> Set-Cookie -> Cookie -> get_cookie(name, secret=sr): secrets sw, sr symbolic "
             "(1..%d code points, any but surrogates), value leaves symbolic and opaque (TagPickle), name one of %r"
             % (shape, smax, SIGNED_NAMES), 60 if smax == 1 else 1200, ["same-secret", "other-secret"], config={"shape": shape})
+    for shape in (["tuple"] if not T else ["tuple", "empty", "dict"]):
+        add("copy/signed/%s" % shape, make_signed(shape, OPTIONS if shape == "dict" else {}, 1, "copy"),
+            "as signed/%s, the response copied (Response.copy, the step redirect() performs) between set_cookie and emission"
+            % shape, 60, ["same-secret", "other-secret"], config={"shape": shape})
+    for ctx in (["separators", "quotes"] if not T else sorted(CONTEXTS)):
+        pre, post = CONTEXTS[ctx]
+        add("copy/plain/%s" % ctx, make_plain_ctx(ctx, None, "copy"),
+            "as plain/ctx/%s, the response copied (Response.copy, the step redirect() performs) between set_cookie and emission"
+            % ctx, 250, ["read-back"], config={"context": [pre, post]})
     for shape in (["nested", "text"] if not T else sorted(REAL_VALUES)):
         add("real/roundtrip-%s" % shape, make_real_roundtrip(shape),
             "real hmac/pickle/base64: value %s, names %r x write/read secrets %r (solver-enumerated indices), all cookie options"
